@@ -12,6 +12,35 @@
 // See the License for the specific language governing permissions and
 // limitations under the License.
 
+/// Verification hook, inactive unless the environment variable `SEDPACK_VERIF` is set to `1`: records the
+/// order of the channel operations of `parallel_map` (`r`: a worker's `recv` returned, `s`: a worker is about to
+/// compute and `send` a result, `n`: `next` received from a worker, `d`: `drop` starts) so that an external
+/// checker can replay them on a model.
+pub mod verif {
+    static ENABLED: std::sync::OnceLock<bool> = std::sync::OnceLock::new();
+    static LOG: std::sync::Mutex<Vec<(char, usize)>> = std::sync::Mutex::new(Vec::new());
+
+    pub fn enabled() -> bool {
+        *ENABLED.get_or_init(|| std::env::var("SEDPACK_VERIF").map(|v| v == "1").unwrap_or(false))
+    }
+
+    pub fn log(kind: char, worker: usize) {
+        if enabled() {
+            if let Ok(mut log) = LOG.lock() {
+                log.push((kind, worker));
+            }
+        }
+    }
+
+    /// Return and clear what has been recorded so far.
+    pub fn take() -> Vec<(char, usize)> {
+        match LOG.lock() {
+            Ok(mut log) => std::mem::take(&mut *log),
+            Err(_) => Vec::new(),
+        }
+    }
+}
+
 pub struct ParallelMap<I, T>
 where
     I: Iterator,
@@ -58,6 +87,7 @@ where
     fn next(&mut self) -> Option<T> {
         // If the original iterator was empty we have nothing to return.
         if self.communication.is_empty() {
+            verif::log('n', 0);
             return None;
         }
 
@@ -75,6 +105,7 @@ where
                 None
             }
         };
+        verif::log('n', self.now);
 
         // Some(task) means more work for the thread, None means the thread should finish.
         let next_task = self.iter.next();
@@ -100,6 +131,7 @@ where
 {
     fn drop(&mut self) {
         // Send end of communication to all threads.
+        verif::log('d', 0);
         for communication in &self.communication {
             let _ = communication.send.send(None);
         }
@@ -145,11 +177,14 @@ where
         communication.push(par_map);
         let handle = std::thread::spawn(move || {
             while let Ok(Some(task)) = thread.receive.recv() {
+                verif::log('r', t);
+                verif::log('s', t);
                 match thread.send.send(Some((fun)(task))) {
                     Ok(()) => (),
                     Err(_) => return,
                 }
             }
+            verif::log('r', t);
         });
         handles.push(handle);
 
